@@ -12,6 +12,7 @@ from vf.core import Chooser, Fail, Result, call
 
 ID = "C05"
 LEVEL = "exploration"
+HANG_IS_VIOLATION = True     # kekulization of a system of <= 120 atoms takes milliseconds; 'accepts or raises EncoderError' implies it returns
 RULE = ("aromatic systems: rings of size 3-8 fused on edges / bridged by paths, polyhedral cages (C60, C20, truncated tetra-/"
         "octahedron, prisms, Moebius ladders, Petersen graph, K4) and random cubic graphs up to 60 atoms; atom kinds by degree "
         "from the standard list (c, n, o, s, p, [nH], n(R), [n+](R), [nH+], c(R), c(=O), [pH], p(R)) or an extended list "
